@@ -284,6 +284,10 @@ func (p *Properties) UnpackWillProperties(bufr *bytes.Buffer) error {
 	if length == 0 {
 		return nil
 	}
+	// the properties cannot be longer than what is left of the packet
+	if length > bufr.Len() {
+		return codes.ErrMalformed
+	}
 	newBufr := bytes.NewBuffer(bufr.Next(length))
 	var propType byte
 	for {
@@ -346,6 +350,10 @@ func (p *Properties) Unpack(bufr *bytes.Buffer, packetType byte) error {
 	}
 	if length == 0 {
 		return nil
+	}
+	// the properties cannot be longer than what is left of the packet
+	if length > bufr.Len() {
+		return codes.ErrMalformed
 	}
 	newBufr := bytes.NewBuffer(bufr.Next(length))
 	var propType byte
